@@ -41,6 +41,7 @@ class Engine:
         self.opaque_ext = os.environ.get("VF_OPAQUE_EXT", "1") == "1"  # abs/max/min as shared defined symbols instead of If-terms
         self._som_cache = {}
         self.partial_ok = False
+        self.algebraic_sqrt = False  # opt-in: square roots of constants as exact algebraic literals (fast constant folding, harder nlsat coefficients)
         self.branch_timeout_ms = int(os.environ.get("VF_BRANCH_TIMEOUT_MS", "3000"))
         self.perturb = None  # None or z3 Real delta: comparisons decided with margin (C06-tie mode)
 
@@ -96,8 +97,8 @@ class Engine:
     def def_abs(self, t):
         """|t| as a shared opaque symbol y with y >= 0, (y == t or y == -t); same canonical polynomial (up to sign) -> same symbol"""
         c = self.canon(t)
-        if z3.is_rational_value(c):
-            return c if c.numerator_as_long() >= 0 else z3.simplify(-c)
+        if z3.is_rational_value(c) or z3.is_algebraic_value(c):
+            return c if z3.is_true(z3.simplify(c >= 0)) else z3.simplify(-c)
         k1, k2 = poly_key(c), poly_key(self.canon(-t))
         key = "abs:" + min(k1, k2)
         if key not in self.notes:
@@ -115,9 +116,13 @@ class Engine:
             c = self.canon(t)
             if poly_key(c) not in seen:
                 seen.add(poly_key(c)); cs.append(c)
-        if all(z3.is_rational_value(c) for c in cs):
-            vals = [fractions.Fraction(c.numerator_as_long(), c.denominator_as_long()) for c in cs]
-            return rat(max(vals) if which == "max" else min(vals))
+        if all(z3.is_rational_value(c) or z3.is_algebraic_value(c) for c in cs):
+            best = cs[0]
+            for c in cs[1:]:
+                better = z3.simplify(c >= best) if which == "max" else z3.simplify(c <= best)
+                if z3.is_true(better):
+                    best = c
+            return best
         if len(cs) == 1:
             return cs[0]
         key = which + ":" + "|".join(sorted(seen))
@@ -469,6 +474,8 @@ class S:
     def _b(self, o, f):
         if isinstance(o, np.ndarray) and o.ndim > 0:
             return NotImplemented
+        if isinstance(o, (float, np.floating)) and math.isnan(o):
+            return float("nan")  # nan propagates (e.g. "no positive multiple" markers)
         if isinstance(o, (float, np.floating)) and not math.isfinite(o) and z3.is_rational_value(self.t):
             return f(float(self), float(o))  # e.g. np.ones(n) * np.inf for default upper bounds
         try:
@@ -513,6 +520,12 @@ class S:
             n_, d_ = math.isqrt(f.numerator), math.isqrt(f.denominator)
             if n_ * n_ == f.numerator and d_ * d_ == f.denominator:
                 return S(rat(fractions.Fraction(n_, d_)))
+        if e.algebraic_sqrt and (z3.is_rational_value(c) or z3.is_algebraic_value(c)):
+            nonneg = z3.simplify(c >= 0)
+            if z3.is_true(nonneg):
+                r = z3.simplify(z3.Sqrt(c))
+                if z3.is_algebraic_value(r) or z3.is_rational_value(r):
+                    return S(r)  # exact algebraic number literal: arithmetic and comparisons on it are decided by z3's simplifier
         k = "sqrt:" + poly_key(c)
         if k in e.notes:
             return e.notes[k]
@@ -549,6 +562,9 @@ class S:
         v = z3.simplify(s.t)
         if z3.is_rational_value(v):
             return float(v.numerator_as_long()) / float(v.denominator_as_long())
+        if z3.is_algebraic_value(v):
+            a = v.approx(30)
+            return float(a.numerator_as_long()) / float(a.denominator_as_long())
         raise Inconclusive("symbolic real reached a float-only (compiled) boundary: " + str(s.t)[:80])
 
     def __bool__(s):
